@@ -351,7 +351,8 @@ class Consumer(object):
         def _handle_shutdown_commit_success(result):
             """Handle the result of the commit attempted by shutdown"""
             self._shutdown_d, d = None, self._shutdown_d
-            self.stop()
+            if not self._stopping:  # stop() itself may have cancelled the processor
+                self.stop()
             self._shuttingdown = False  # Shutdown complete
             d.callback(self._last_processed_offset)
 
